@@ -36,7 +36,7 @@ func under(scope, g string) bool {
 	c := path.Clean("/" + scope)[1:]
 	return c == g || strings.HasPrefix(c, g+"/")
 }
-func exactly(scope, g string) bool { return scope != "" && path.Clean("/"+scope)[1:] == g }
+func exactly(scope, g string) bool { return scope != "" && path.Clean("/" + scope)[1:] == g }
 
 func always(string) bool { return true }
 
@@ -368,6 +368,8 @@ func runApi(t *tr.Trace, r *tr.Rand, n int) {
 	for i := 0; i < (n+1)/2; i++ {
 		runRandom(t, r, root, i)
 	}
+	// I/O faults during the store step of every updating route
+	runFaults(t, r, root)
 	// overlapping administrator updates, and groups loaded in memory
 	runLockstep(t, r, root)
 	runConcurrent(t, r, root, 30)
